@@ -22,9 +22,21 @@ Pending == [pending |-> TRUE]
 (* counts reported as coverage: instruction boundaries, multi-word groups,  *)
 (* jump/skip edges whose target was checked, opcodes present                *)
 JumpOps == {OP_JMP, OP_EQ, OP_LT, OP_LE, OP_TEST, OP_TESTSET, OP_FORLOOP, OP_FORPREP, OP_TFORLOOP}
+(* VM-side law (records of `vharness c07-trace`): dpc lists the code words the REAL main *)
+(* loop dispatched as instructions while running the program; every one of them must be *)
+(* an instruction boundary of the prototype - after an instruction with data words the  *)
+(* pc has advanced past those words (the first offending pc is reported)                *)
+DynViol(p, hd) ==
+    IF "dpc" \notin DOMAIN p THEN {}
+    ELSE LET off == {p.dpc[i] : i \in {k \in 1..Len(p.dpc) :
+                        p.dpc[k] < 0 \/ p.dpc[k] >= NW(p) \/ ~hd.h[p.dpc[k] + 1]}}
+         IN IF off = {} THEN {}
+            ELSE {<<"vm:dispatched-a-word-that-is-no-instruction-boundary",
+                    CHOOSE m \in off : \A x \in off : m <= x>>}
+
 Result(p) ==
     LET hd == Frame(p)
-        v  == Viol(p, hd)
+        v  == Viol(p, hd) \cup DynViol(p, hd)
         hs == {q \in 0..NW(p) - 1 : hd.h[q + 1]}
     IN [id |-> p.id, ok |-> v = {}, n |-> NW(p), nh |-> Cardinality(hs),
         ng |-> Cardinality({q \in hs : GLen(p, q) > 1}),
